@@ -415,9 +415,15 @@ func (g gatedClientSets) GetAllClients() []gatewayclientset.Interface { return n
 func (g gatedClientSets) ClientFor(cluster string) (gatewayclientset.Interface, error) {
 	return nil, fmt.Errorf("verif: no client")
 }
-func (g gatedClientSets) ShardIDFor(cluster string) (int, error) { return g.real.ShardIDFor(cluster) }
-func (g gatedClientSets) IsReady(cluster string) bool            { return g.real.IsReady(cluster) }
-func (g gatedClientSets) ClientID() string                       { return g.real.ClientID() }
+
+// ShardIDFor is asked by the real reconcile loop only (waitForReady, after IsReady): it never gets an answer, so the
+// loop started by ResetLimiter("remote") stays alive, polling, and never runs a wall-clock round behind the harness —
+// the rounds are the ops "reconcile"/"answer", performed only while that loop is alive.
+func (g gatedClientSets) ShardIDFor(cluster string) (int, error) {
+	return 0, fmt.Errorf("verif: rounds are scripted")
+}
+func (g gatedClientSets) IsReady(cluster string) bool { return g.real.IsReady(cluster) }
+func (g gatedClientSets) ClientID() string            { return g.real.ClientID() }
 
 // wrapperProbeBudget bounds, per process, the probes that go through the max-in-flight count wrapper's waiting path
 // (each waiting TryAcquire leaks one goroutine inside waitAcquire, in the real code too).
@@ -514,12 +520,9 @@ func runImpl(c *rig.Ctx, cs Case, rnd func(int) int) (res runResult) {
 				infoMu.Unlock()
 				clientsets.VerifSync(bare)
 			case "restart":
-				// the mode is switched away and back: the reconcile loop's SECOND start. Only while the server is not
-				// ready (a loop started while it is ready runs a round at once, asynchronously).
-				if !bare.IsReady(cluster) {
-					ul.ResetLimiter("local")
-					ul.ResetLimiter(cs.Cfg.RateLimiter)
-				}
+				// the mode is switched away and back on the live limiter: the reconcile loop's SECOND start
+				ul.ResetLimiter("local")
+				ul.ResetLimiter(cs.Cfg.RateLimiter)
 			case "reconcile":
 				if loopAlive() {
 					remote.VerifUpdateGlobalCount(cluster, ul.AllFlowControls())
